@@ -462,6 +462,7 @@ func init() {
 			{"loop-accumulator", "a boolean that summarises a loop (some element needs X / all elements satisfy Y) and is read after it is accumulated monotonically - set to a constant, combined with its previous value, assigned under a test of itself, or followed by leaving the loop - never overwritten by the value computed for the current element only", func(c *Ctx) { ruleLoopAccumulator(c, "pkg/core/mempool") }},
 			{"dead-update", "no struct-typed local is assigned and field-updated without ever being read, passed on or returned (a modified copy that is lost while the stale original goes on being used)", func(c *Ctx) { ruleDeadUpdate(c, "pkg/core/mempool") }},
 			{"check-all-loop", "a loop that rejects on a property of each element with an error return is not left early with a break (the elements after it would escape the check)", func(c *Ctx) { ruleCheckAllLoop(c, "pkg/core/mempool") }},
+			{"fee-sum-cumulative", "the total checkBalance returns on success derives from the payer's previous pooled total: RemoveStale rebuilds the per-payer sums from it", ruleFeeSumCumulative},
 			{"lock-pairing", "in pkg/core/mempool every mutex acquired is released on every exit of every function (defer-aware, boolean-correlated), never released unheld, never re-acquired while held", func(c *Ctx) { lockPairingPkgs(c, []string{"pkg/core/mempool"}, nil, 10) }},
 			{"add-failure-atomic", "no write to verifiedMap/verifiedTxes/fees/conflicts/oracleResp (direct or through a Pool method) lies on a CFG path to a non-nil error return of Pool.Add or checkTxConflicts (tabled: removal before the infeasible capacity exit; balance-cache fill)", ruleAddFailureAtomic},
 			{"index-comaintenance", "every removal/insertion path of the pool updates all five indexes, and fee credits in conflict resolution are gated by payer equality", ruleIndexComaintenance},
